@@ -359,6 +359,25 @@ pub fn generate(sink: &mut Sink, seed: u64, thorough: bool) {
         emit(sink, &prog, "residue_sweep", &mut lines, &mut exps);
         r += step as usize;
     }
+    // the END of the XML section (= the end of the file's content) on, just before and just behind a page boundary:
+    // the coordinate metadata string is lengthened until the XML ends where wanted
+    for base in 0..(if thorough { 6 } else { 2 }) {
+        let mk = |pad: usize| Program {
+            guid: "xml-end".into(),
+            stmts: vec![Stmt::Blob(Data::Gen(300 + 77 * base, base)), Stmt::Cm(Some("m".repeat(pad))), Stmt::Fin],
+        };
+        let probe = execute(&mk(0), &crate::dev::SimDev::new(vec![]));
+        if probe.panicked || probe.file.len() < 48 {
+            continue;
+        }
+        let off = u64::from_le_bytes(probe.file[24..32].try_into().unwrap()) as usize;
+        let len = u64::from_le_bytes(probe.file[32..40].try_into().unwrap()) as usize;
+        let end = off - 4 * (off / 1024) + len; // logical end of the XML
+        for d in [0usize, 1, 2, 3, 4, 1016, 1017, 1018, 1019] {
+            let pad = (1020 - end % 1020 + d) % 1020;
+            emit(sink, &mk(pad), "xml_end_on_page_boundary", &mut lines, &mut exps);
+        }
+    }
     let model = run_model("spec", &lines);
     for (k, (line, exp)) in lines.iter().zip(exps.iter()).enumerate() {
         sink.oracle_evals += 1;
